@@ -1,9 +1,11 @@
 #!/bin/bash
-# Offline setup: install contract libraries beside the repo's interpreter (git-ignored .deps) and self-test the oracle.
-set -e
+# Offline setup: install the contract libraries beside the repository's interpreter (git-ignored
+# .deps, from the local wheelhouse) and self-test the oracle against the repository's ground truths.
 cd "$(dirname "$0")"
 if [ ! -d .deps/icontract ]; then
-  /venv/bin/pip install -q --no-index --find-links /opt/veriftools/wheels --target .deps icontract deal >/dev/null 2>&1 || echo "WARN: could not install icontract/deal (contracts fall back to plain wrappers)"
+  /venv/bin/pip install -q --no-index --find-links /opt/veriftools/wheels --target .deps icontract deal >/dev/null 2>&1 \
+    || echo "WARN: could not install icontract/deal (operator contracts fall back to plain wrappers)"
 fi
 mkdir -p evidence replays
+./dbg.sh -m vf.selftest || { echo "setup: oracle selftest failed"; exit 1; }
 exit 0
